@@ -11,16 +11,17 @@ func init() {
 	vxRegister("VX_C03_Frame", VX_C03_Frame)
 }
 
-var vxCallStages = []string{"", "PostReadCallHeader", "PreReadCallBody", "PostReadCallBody"}
-var vxPushStages = []string{"", "PostReadPushHeader", "PreReadPushBody", "PostReadPushBody"}
+var vxCallStages = []string{"", "PostReadCallHeader", "PreReadCallBody", "PostReadCallBody", "PreWriteReply", "PostWriteReply"}
+var vxPushStages = []string{"", "PostReadPushHeader", "PreReadPushBody", "PostReadPushBody", "", ""}
 
 type vxUnencodable struct{ X int }
 
 // VX_C03_Frame: one received frame on a live session.
 // args: mtypeMode(0 symbolic, 1 CALL, 3 PUSH, 2 REPLY-without-pending, 9 unsupported),
 //       methodMode(0 registered, 1 unregistered, 2 empty), unknownHandler(0/1),
-//       outcome(0 ok+body, 1 status, 2 panic, 3 body the codec cannot marshal, 4 panic after setting a body),
-//       vetoStage(0..3), writeFail(0 none, 1 EOF at transport, 2 other transport error),
+//       outcome(0 ok+body, 1 status, 2 panic, 3 body the codec cannot marshal, 4 panic after setting a body,
+//               5 panic with a non-OK *Status value, 6 panic with an OK *Status value),
+//       vetoStage(0 none, 1..3 before the handler, 4 PreWriteReply, 5 PostWriteReply), writeFail(0 none, 1 EOF at transport, 2 other transport error),
 //       nBody, pipeCode(0 none, 1 one filter)
 func VX_C03_Frame(args []int) {
 	mtypeMode, methodMode, unknownH, outcome, vetoStage, writeFail, nBody, pipeCode := args[0], args[1], args[2], args[3], args[4], args[5], args[6], args[7]
@@ -43,6 +44,10 @@ func VX_C03_Frame(args []int) {
 		case 4:
 			ctx.output.SetBody([]byte("half"))
 			panic("handler panics late")
+		case 5:
+			panic(NewStatus(1001, "thrown", "detail")) // a panic value that happens to be a *Status
+		case 6:
+			panic(NewStatus(CodeOK, "", ""))
 		}
 		return arg, nil
 	}
@@ -136,7 +141,7 @@ func VX_C03_Frame(args []int) {
 			// C04 server link: which status the reply carries
 			ran := route.calls == 1 || unknownCalls == 1
 			switch {
-			case vetoStage > 0 && !(vetoStage >= 2 && methodMode != 0 && unknownH == 0) && !(methodMode == 2):
+			case vetoStage > 0 && vetoStage <= 3 && !(vetoStage >= 2 && methodMode != 0 && unknownH == 0) && !(methodMode == 2):
 				vxAssert(!ran, "[C09] vetoed CALL does not reach the handler")
 				vxAssert(m.Status(true).Code() == veto.Code(), "[C09] vetoing plugin's status is what the caller receives")
 			case methodMode == 2:
@@ -157,7 +162,7 @@ func VX_C03_Frame(args []int) {
 			case outcome == 1:
 				vxAssert(ran && m.Status(true).Code() == hstat.Code(), "[C04] handler status => same code in reply")
 				vxAssert(m.Status(true).Msg() == hstat.Msg(), "[C04] handler status => same message in reply")
-			case outcome == 2 || outcome == 4:
+			case outcome == 2 || outcome == 4 || outcome == 5 || outcome == 6:
 				vxAssert(ran && m.Status(true).Code() == CodeInternalServerError, "[C04] handler panic => 500")
 			case outcome == 3:
 				vxAssert(ran && m.Status(true).Code() == CodeInternalServerError, "[C04] reply that cannot be encoded => 500 error reply instead")
@@ -173,5 +178,9 @@ func VX_C03_Frame(args []int) {
 		vxCover("c03.unsupported")
 		vxAssert(handlerRuns == 0 && n == 0, "unsupported type: no handler, no answer")
 		vxAssert(!sess.Health() && conn.isClosed(), "unsupported type is answered by disconnecting")
+		conn.end()
+		vxWaitIdle()
+		vxAssert(vxBlockedThreads() == 0, "[C06] the disconnect completes: nobody left blocked")
+		vxAssert(vxCount(log, "rec:PostDisconnect") == 1, "[C07] disconnect hook ran exactly once")
 	}
 }
